@@ -221,7 +221,7 @@ theorem C06_one_request (pl : Plan) (args : Args) :
     (send pl args = .panic ∧ pl.verb.hasBody = false ∧ runQueryOps args pl.queryOps = none) := by
   unfold send
   simp only
-  by_cases h1 : (pl.verb.hasBody || (pl.queryOps.isEmpty && pl.dict.isNone)) = true
+  by_cases h1 : (pl.verb.hasBody || (pl.queryOps.isEmpty && pl.dict.isEmpty)) = true
   · simp only [h1, ↓reduceIte]; exact Or.inl ⟨_, rfl⟩
   · simp only [h1, Bool.false_eq_true, ↓reduceIte]
     cases hr : runQueryOps args pl.queryOps with
